@@ -17,6 +17,7 @@ Re-extracted on every run (comments / whitespace invisible):
                                 - a `strlen(conn->sm_state->id) != id_len` test exists
   common.h                    XMPP_QUEUE_* owner values, XMPP_STATE_* order;  strophe.h  XMPP_EINVOP
   _send_raw                   the text of req_ack
+  xmpp_run_once (event.c)     whether the send loop clears the new head's prev after popping an element
 The model (coq/Model/SmBlobModel.v) is defined over these values; Gen_smblob_ok re-checks them against the
 format of coq/Spec/SmBlobSpec.v and against the code shape the theorems are proved for.
 """
@@ -152,6 +153,14 @@ def values():
     v["fix_trailing"] = bool(re.search(r"sm\.state\s*!=\s*sm\.state_end", rs[:rs.index("err_reload:")]))
     v["fix_idnul"] = bool(re.search(r"strlen\s*\(\s*conn->sm_state->id\s*\)\s*!=\s*id_len", rs))
 
+    ev = T.strip_comments(T.read_src("src/event.c"))
+    ro = func_body(ev, "xmpp_run_once")
+    mpop = re.search(r"conn->send_queue_head\s*=\s*sq\s*;", ro)
+    if not mpop:
+        raise T.TranslateError("xmpp_run_once: `conn->send_queue_head = sq;` not found")
+    mtrig = ro.find("trigger_sm_callback", mpop.end())
+    v["loop_clears_prev"] = bool(re.search(r"\bsq->prev\s*=\s*NULL\s*;", ro[mpop.end():mtrig if mtrig > 0 else len(ro)]))
+
     sr = func_body(src, "_send_raw")
     v["req_ack"] = str_lit(one(r"req_ack\s*=\s*" + STR + r";", sr, "_send_raw: req_ack ="))
 
@@ -203,6 +212,8 @@ def generate():
     o += "Definition rst_err_clears_sm : bool := %s.\n" % b(v["fix_err_null"])
     o += "Definition rst_checks_trailing : bool := %s.\n" % b(v["fix_trailing"])
     o += "Definition rst_checks_idnul : bool := %s.\n\n" % b(v["fix_idnul"])
+    o += "(* xmpp_run_once: after `conn->send_queue_head = sq` the new head's prev is cleared *)\n"
+    o += "Definition loop_clears_prev : bool := %s.\n\n" % b(v["loop_clears_prev"])
     o += "Definition req_ack : list Z := %s.\n" % zl(v["req_ack"])
     o += "Definition OWNER_STROPHE : Z := %d.\nDefinition OWNER_USER : Z := %d.\nDefinition OWNER_SM : Z := %d.\n" % (
         v["XMPP_QUEUE_STROPHE"], v["XMPP_QUEUE_USER"], v["XMPP_QUEUE_SM"])
